@@ -149,12 +149,21 @@ def run_rule(run, rule_id="C09.c"):
             roles = operand_roles(f.node)
             want = _expected_roles(f.node, name)
             signed_domain = own in ("Signed", "Integer") or own is None
+            # the value may be computed into a local first (`quotient = helper(lhs, rhs)` ... `return T(quotient)`):
+            # follow the locals that flow into the returned expressions
+            roots = [r.value for r in rets]
+            assigns = [a for a in walk_local(f.node) if isinstance(a, ast.Assign) and len(a.targets) == 1 and isinstance(a.targets[0], ast.Name)]
+            for _round in range(3):
+                used = {x.id for v in roots for x in ast.walk(v) if isinstance(x, ast.Name)}
+                for a in assigns:
+                    if a.targets[0].id in used and not any(a.value is v for v in roots):
+                        roots.append(a.value)
             exprs = []
-            for r in rets:
-                for x in ast.walk(r.value):
+            for v in roots:
+                for x in ast.walk(v):
                     if isinstance(x, ast.BinOp) and isinstance(x.op, (ast.FloorDiv, ast.Mod, ast.Div)):
                         exprs.append(x)
-            helper_calls = [c for r in rets for c in ast.walk(r.value) if isinstance(c, ast.Call) and dotted(c.func) == HELPER[1]]
+            helper_calls = [c for v in roots for c in ast.walk(v) if isinstance(c, ast.Call) and dotted(c.func) == HELPER[1]]
             construct = key
             if name in MOD_FUNCS:
                 mods = [x for x in exprs if isinstance(x.op, ast.Mod)]
